@@ -214,6 +214,12 @@ def programs(thorough):
                 good = '#[derive(TypeInfo)]\n#[scale_info(%s)]\npub struct S<T> { a: T }\n' % ', '.join(others)
                 add('unknown-attr:%s:separate-list/%d' % (bad_attr, len(others)), 'derive', bad, good, None)
 
+    # the attribute itself in a form that is not a parenthesised list
+    for form in ('#[scale_info]', '#[scale_info = "skip_type_params(T)"]', '#[scale_info = "always"]'):
+        for kind in ('pub struct S<T> { a: T }', 'pub enum S<T> { A(T), B }', 'pub struct S;'):
+            for extra in ('', '#[scale_info(capture_docs = "always")]\n'):
+                add('unknown-attr:not-a-list:%s:%s:%d' % (form, kind.split()[1], len(extra) > 0), 'derive', '#[derive(TypeInfo)]\n%s%s\n%s\n' % (extra, form, kind), '#[derive(TypeInfo)]\n%s%s\n' % (extra, kind), None)
+
     # ---- derive: repeated attributes (one list and across lists, every position among other valid attributes)
     dup = {
         'bounds': ("bounds(T: TypeInfo + 'static)", "bounds(T: TypeInfo + 'static + Clone)"),
